@@ -51,8 +51,9 @@ UsedSup(id) == \E i \in 1..Len(supMap) : supMap[i][1] = id
 \* KNOWN_MINECRAFT_VERSION_RECORDS.insert(pos, rec)
 Extend == /\ Len(hist) < MaxOps
           /\ \E r \in NewRecords, pos \in 0..Len(records) :
-               /\ ~Used(r.id)
+               /\ \A i \in 1..Len(records) : records[i] # r    \* (an id may be listed again, with another protocol or flag:
                /\ records' = InsertAt(records, pos + 1, r)
+                                                               \*  the later record's protocol wins, the id keeps its place)
                /\ hist' = Append(hist, [op |-> "extend", pos |-> pos, id |-> r.id, p |-> r.p, sup |-> r.sup])
           /\ UNCHANGED <<supMap, tab>>
 
